@@ -679,14 +679,68 @@ pub mod std {
                     fn from_mode(mode: u32) -> Self;
                 }
 
-                /// Only the link count (unspecified value) is offered.
+                /// st_nlink (unspecified value) and the whole-second / nanosecond parts of st_atim / st_mtim.
                 pub trait MetadataExt {
+                    spec fn ext_atime_ns(&self) -> int;
+
+                    spec fn ext_mtime_ns(&self) -> int;
+
                     fn nlink(&self) -> u64;
+
+                    fn atime(&self) -> (r: i64)
+                        ensures
+                            r as int * ns_per_sec() <= self.ext_atime_ns() < (r as int + 1) * ns_per_sec(),
+                    ;
+
+                    fn mtime(&self) -> (r: i64)
+                        ensures
+                            r as int * ns_per_sec() <= self.ext_mtime_ns() < (r as int + 1) * ns_per_sec(),
+                    ;
+
+                    fn atime_nsec(&self) -> (r: i64)
+                        ensures
+                            0 <= r < ns_per_sec(),
+                            (self.ext_atime_ns() - r as int) % ns_per_sec() == 0,
+                    ;
+
+                    fn mtime_nsec(&self) -> (r: i64)
+                        ensures
+                            0 <= r < ns_per_sec(),
+                            (self.ext_mtime_ns() - r as int) % ns_per_sec() == 0,
+                    ;
                 }
 
                 impl MetadataExt for std::fs::Metadata {
+                    open spec fn ext_atime_ns(&self) -> int {
+                        self.view().atime
+                    }
+
+                    open spec fn ext_mtime_ns(&self) -> int {
+                        self.view().mtime
+                    }
+
                     #[verifier::external_body]
                     fn nlink(&self) -> u64 {
+                        unimplemented!()
+                    }
+
+                    #[verifier::external_body]
+                    fn atime(&self) -> (r: i64) {
+                        unimplemented!()
+                    }
+
+                    #[verifier::external_body]
+                    fn mtime(&self) -> (r: i64) {
+                        unimplemented!()
+                    }
+
+                    #[verifier::external_body]
+                    fn atime_nsec(&self) -> (r: i64) {
+                        unimplemented!()
+                    }
+
+                    #[verifier::external_body]
+                    fn mtime_nsec(&self) -> (r: i64) {
                         unimplemented!()
                     }
                 }
